@@ -68,6 +68,7 @@ type Lookup struct {
 	Moment [6]int  `json:"moment"`           // y,m,d,h,mi,s of M (when Jie and Repeat are nil)
 	Jie    *JieRef `json:"jie,omitempty"`    // M = instant of a Jie term + offset, resolved by the worker from the library's term table
 	Repeat *int    `json:"repeat,omitempty"` // M = the moment of an earlier lookup of this run
+	Tie    *TieRef `json:"tie,omitempty"`    // M = a Jie instant that falls exactly on a full hour (hh:00:00) between base and now, + offset
 	Sect   int     `json:"sect"`
 	Base   int     `json:"base"` // 0 = use the API without base year (default 1900)
 	API    int     `json:"api"`  // 0 BySectAndBaseYear, 1 BySect, 2 plain (sect 2)
@@ -79,6 +80,13 @@ type JieRef struct {
 	Year int `json:"year"`  // civil year in which the term falls
 	Idx  int `json:"idx"`   // 0 Xiaohan(Jan) 1 Lichun 2 Jingzhe ... 11 Daxue(Dec)
 	OffS int `json:"off_s"` // seconds added to the instant (negative = before)
+}
+
+// TieRef names a moment relative to a Jie instant that coincides with a candidate time of the search (hh:00:00):
+// the only places where a < versus <= between a candidate and a term instant can matter.
+type TieRef struct {
+	Pick uint64 `json:"pick"`
+	OffS int    `json:"off_s"`
 }
 
 // HStep is one step of a holiday history (C14).
